@@ -97,6 +97,31 @@ def lexrun(seed, tier, log=print, extra_modes=('p',)):
         pfx[i] = (chosen, sorted(fam))
         for b in sorted(fam):
             preqs.append('%d p %s' % (i, P.hexs(b)))
+    # chunked feeding (C07, last clause; model Chunked.feed): schedules of growing buffers over the same sample of inputs - every
+    # single cut, every pair of cuts of a short input, one byte at a time, and a few random schedules (repeated cuts included)
+    freqs = []
+    feeds = {}
+    for i in accepted:
+        Rf = random.Random(seed * 7919 + i)
+        fl = []
+        for S in pfx[i][0][:cfg.get('n_feed', 12)]:
+            n = len(S)
+            ok = [k for k in range(n + 1) if not corpus[i].utf8 or P.is_valid_utf8(list(S[:k]))]
+            scheds = [[k] for k in ok]
+            if n <= 7:
+                scheds += [[a, b_] for a in ok for b_ in ok if a <= b_]
+            scheds.append(ok)
+            for _ in range(4):
+                scheds.append(sorted(Rf.choice(ok) for _ in range(Rf.randint(2, 5))))
+            seen = set()
+            for sc in scheds:
+                t = ','.join(map(str, sc))
+                if t not in seen:
+                    seen.add(t)
+                    fl.append((t, S))
+        feeds[i] = fl
+        for (t, S) in fl:
+            freqs.append('%d f%s %s' % (i, t, P.hexs(S)))
     treqs = []
     for i in accepted:
         for b in inputs[i][:: max(1, len(inputs[i]) // 300)]:
@@ -116,7 +141,7 @@ def lexrun(seed, tier, log=print, extra_modes=('p',)):
             zoo_out[c] = None
             continue
         t1 = time.time()
-        outs = Z.run_zoo(b['bin'], treqs if 'trace' in c else reqs + preqs + creqs, nproc=6)
+        outs = Z.run_zoo(b['bin'], treqs if 'trace' in c else reqs + preqs + creqs + freqs, nproc=6)
         zoo_out[c] = outs
         log('lexrun: zoo run %s: %d requests %.1fs' % (c, len(outs), time.time() - t1))
     # lean
@@ -135,6 +160,8 @@ def lexrun(seed, tier, log=print, extra_modes=('p',)):
         for b in pfx[i][1]:
             lines.append('Q LEX p ' + P.hexs(b))
             lines.append('Q PSPEC ' + P.hexs(b))
+        for (t, S) in feeds.get(i, []):
+            lines.append('Q FEED %s %s' % (t, P.hexs(S)))
         for b in inputs[i][:: max(1, len(inputs[i]) // 300)]:
             lines.append('Q LEX t ' + P.hexs(b))
         for b in cin.get(i, []):
@@ -145,7 +172,7 @@ def lexrun(seed, tier, log=print, extra_modes=('p',)):
     log('lexrun: lean driver %d answers %.1fs' % (len(lean), time.time() - t1))
     r = dict(key=key, seed=seed, tier=tier, corpus=corpus, srcs=srcs, caps=caps, accepted=accepted, inputs=inputs,
              stats=stats, builds={c: dict(ok=b['ok'], secs=b['secs'], stderr=b['stderr'][-4000:]) for c, b in builds.items()},
-             reqs=reqs, preqs=preqs, treqs=treqs, pfx=pfx, skipped_large=skipped_large, zoo_out=zoo_out, lean=lean, wall=time.time() - t0, cached=False)
+             reqs=reqs, preqs=preqs, treqs=treqs, freqs=freqs, feeds=feeds, pfx=pfx, skipped_large=skipped_large, zoo_out=zoo_out, lean=lean, wall=time.time() - t0, cached=False)
     pickle.dump(r, open(cpath, 'wb'))
     os.makedirs(P.WORK, exist_ok=True)
     open(marker, 'w').write(key)
